@@ -92,7 +92,9 @@ class Sim:
         self.locals = {}              # name -> (decls, props)
         self.root = []
         self.ntag = 0
+        self._pending_pubs = []
         self._run()
+        self._flush_pubs()
 
     def _snapshot(self):
         return {"pubs": {k: list(v) for k, v in self.pubs.items()},
@@ -127,11 +129,11 @@ class Sim:
                     rel.insert(0, (e["version"], tag))
                 else:
                     rel.append((e["version"], tag))
-                self._pub(r, p)
+                self._pending_pubs.append((r, p))
             elif k == "yank":
                 r, p = e["repo"], e["project"]
                 self.pubs[(r, p)] = [x for x in self.pubs.get((r, p), []) if x[0] != e["version"]]
-                self._pub(r, p)
+                self._pending_pubs.append((r, p))
             elif k == "local":
                 self.locals[e["name"]] = (e["decls"], e.get("props", {}))
                 self.ops.append({"op": "write", "path": "locals/%s/Veryl.toml" % e["name"],
@@ -143,6 +145,7 @@ class Sim:
                                  "text": project_toml("main", "0.1.0", e["decls"], {})})
                 self.op_info.append(None)
             elif k == "op":
+                self._flush_pubs()
                 o = {"op": e["op"]}
                 if e["op"] == "update":
                     o["force"] = bool(e.get("force"))
@@ -156,6 +159,17 @@ class Sim:
                     self.op_info.append(info)
             else:
                 raise ValueError(k)
+
+    def _flush_pubs(self):
+        """Veryl.pub is rewritten (one commit per project) only when a lockfile operation is about to
+        look at it: a run of releases needs one publish commit, not one per release"""
+        seen = []
+        for rp in self._pending_pubs:
+            if rp not in seen:
+                seen.append(rp)
+        self._pending_pubs = []
+        for r, p in seen:
+            self._pub(r, p)
 
     def _pub(self, r, p):
         sub = self.repos[r][p]
@@ -244,7 +258,7 @@ def corpus():
         rel("a", "1.0.0", [g("util", "u1", "1", project="u1")]),
         rel("b", "1.0.0", [g("util", "u2", "1", project="u2")]),
         root([g("a", "a", "1", explicit=False), g("b", "b", "1", explicit=False),
-              g("util", "u1", "1", project="u1")])] + [op("new")] * 4 + STD_TAIL))
+              g("util", "u1", "1", project="u1")])] + [op("new")] * 2 + STD_TAIL))
     # literal util_0 declared at the root: the loop must skip to util_1
     out.append(mk("suffix-literal", one("u1", "u2", "u3", "a"), [
         rel("u1", "1.0.0"), rel("u2", "1.0.0"), rel("u3", "1.0.0"),
@@ -430,7 +444,7 @@ def gen_scenario(rng, idx, matrix=None):
     else:
         events += [op("flow"), op("load")]
     # history: new releases / changed declarations / yanks, then updates
-    for _ in range(rng.randint(1, 3)):
+    for _ in range(rng.choice([1, 1, 2, 2, 3])):
         r = rng.random()
         if r < 0.5:
             rn, pn, i = rng.choice(projects)
